@@ -36,6 +36,7 @@ var Prop = &engine.Prop{
 		{Name: "widelru", Quick: 5000, Thorough: 750000, Fn: wideLRUCase},
 		{Name: "keylock", Quick: 5000, Thorough: 750000, Fn: keyLockCase},
 		{Name: "semap", Quick: 5000, Thorough: 750000, Fn: semapCase},
+		{Name: "conc-fresh", Quick: 600, Thorough: 40000, Fn: concFreshCase},
 	},
 	Floors: map[string]int64{
 		// routing
